@@ -9,6 +9,7 @@ z3 reals).  The transformation (exhaustive list - everything else is the code as
   * every comparison `a < b` is wrapped as _T(a < b); chained comparisons are split into a
     conjunction; _T passes Python bools through and, for a symbolic relation, records it as
     a path condition and follows a decision log (default: the relation holds);
+  * `a ** b` becomes _POW(a, b) (the backend may keep a non-integer power as a generator);
   * `import numpy as np`, `from numpy import float64/nan`, `from math import ...` are
     replaced by shims: np.array / np.zeros build object arrays (or int lists), sqrt / exp /
     log are symbolic;
@@ -56,6 +57,13 @@ class _Transformer(ast.NodeTransformer):
             parts.append(wrap(ast.Compare(left=copy.deepcopy(left), ops=[op], comparators=[copy.deepcopy(right)])))
             left = right
         return ast.copy_location(ast.BoolOp(op=ast.And(), values=parts), node)
+
+    def visit_BinOp(self, node):
+        self.generic_visit(node)
+        if isinstance(node.op, ast.Pow):
+            return ast.copy_location(ast.Call(func=ast.Name(id='_POW', ctx=ast.Load()),
+                                              args=[node.left, node.right], keywords=[]), node)
+        return node
 
     def visit_Import(self, node):
         keep = [a for a in node.names if a.name.split('.')[0] not in ('numpy', 'Numeric')]
@@ -182,7 +190,7 @@ def load(modname, repo, backend, extra=None):
     tree = _Transformer().visit(tree)
     ast.fix_missing_locations(tree)
     np_shim = NPShim(backend)
-    ns = {'__name__': 'symx_' + modname, '_R': backend.R, '_T': backend.T, 'np': np_shim,
+    ns = {'__name__': 'symx_' + modname, '_R': backend.R, '_T': backend.T, '_POW': getattr(backend, 'POW', lambda a, b: a ** b), 'np': np_shim,
           'float64': object, 'nan': float('nan'), 'sqrt': backend.sqrt, 'exp': backend.exp,
           'log': backend.logf, 'norm': None}
     if extra:
